@@ -30,8 +30,27 @@ Definition mime_of (p : path) : str :=
   let sfx := suffix_of (match rev p with x :: _ => x | [] => [] end) in
   if eqb sfx (lit ".gmi") || eqb sfx (lit ".gemini") then lit "text/gemini" else lit "text/plain".
 
+(* a component of more than 255 bytes (NAME_MAX) *)
 Definition name_too_long (p : path) : bool :=
   existsb (fun n => 255 <? N.of_nat (length (encode_replace n))) p.
+(* stat() of the completely resolved path p fails with ENAMETOOLONG - the one error that is_dir() / is_file() / exists()
+   do not turn into False: the kernel reports it when it looks the FIRST over-long component up in an existing
+   directory; below a missing entry or a regular file the walk has failed before (ENOENT / ENOTDIR: False) *)
+Fixpoint enametoolong_from (f : fs) (pre rest : path) : bool :=
+  match rest with
+  | [] => false
+  | n :: r =>
+      if 255 <? N.of_nat (length (encode_replace n))
+      then match pre with [] => true | _ => match lstat f pre with Some Dir => true | _ => false end end
+      else enametoolong_from f (pre ++ [n]) r
+  end.
+Definition enametoolong (f : fs) (p : path) : bool := enametoolong_from f [] p.
+(* the components before the first over-long one *)
+Fixpoint short_prefix (p : path) : path :=
+  match p with
+  | [] => []
+  | n :: r => if 255 <? N.of_nat (length (encode_replace n)) then [] else n :: short_prefix r
+  end.
 
 Definition serve_file (c : scfg) (f : fs) (p : path) : sout :=
   match lstat f p with
@@ -62,7 +81,7 @@ Fixpoint try_indices (c : scfg) (f : fs) (d : path) (idx : list str) : option so
       | FPath ip =>
           if path_prefixb (s_root c) ip then
             (* is_file() does not swallow ENAMETOOLONG: the exception leaves handle() *)
-            if name_too_long ip then Some (ORaise (lit "oserror")) else
+            if enametoolong f ip then Some (ORaise (lit "oserror")) else
             match lstat f ip with
             | Some (File _) => Some (serve_file c f ip)
             | _ => try_indices c f d rest
@@ -89,7 +108,7 @@ Definition handle (c : scfg) (f : fs) (url_path : str) : sout :=
     | FFuel => OOom
     | FPath fp =>
         if negb (path_prefixb (s_root c) fp) then OStatus 51 (lit "Not found")
-        else if name_too_long fp then ORaise (lit "oserror")
+        else if enametoolong f fp then ORaise (lit "oserror")
         else match lstat f fp with
              | Some Dir =>
                  match try_indices c f fp (s_indices c) with
@@ -173,7 +192,7 @@ Definition handle_upload (c : ucfg) (f : fs) (r : ureq) (flt : fault) (tok : str
          | Err k _ => (URaise k, f)
          | Ok None => (UResp 59 (lit "Invalid path"), f)
          | Ok (Some t) =>
-             if name_too_long t then (URaise (lit "oserror"), f) else
+             if enametoolong f t then (URaise (lit "oserror"), f) else
              match lstat f t with
              | None => (UResp 51 (lit "Resource not found"), f)
              | Some Dir => (UResp 40 (lit "Delete failed"), f)
@@ -186,11 +205,12 @@ Definition handle_upload (c : ucfg) (f : fs) (r : ureq) (flt : fault) (tok : str
     | Err k _ => (URaise k, f)
     | Ok None => (UResp 59 (lit "Invalid path"), f)
     | Ok (Some t) =>
-        (* only the PARENT's components stop mkdir() *)
-        if name_too_long (removelast t) then (UResp 40 (lit "Upload failed"), f) else
-        match mkdirs (S (length t)) f [] (removelast t) with
+        (* target.parent.mkdir(parents=True, exist_ok=True): only the PARENT's components can stop it; the directories
+           before its first over-long component are created before ENAMETOOLONG is met *)
+        match mkdirs (S (length t)) f [] (short_prefix (removelast t)) with
         | None => (UResp 40 (lit "Upload failed"), f)
         | Some f1 =>
+            if name_too_long (removelast t) then (UResp 40 (lit "Upload failed"), f1) else
             match t with
             | [] => (UResp 40 (lit "Upload failed"), f1)
             | _ =>
